@@ -1,6 +1,7 @@
 import Litep2pVerif.Common.Parse
 import Litep2pVerif.Model.Wire.KadEncoders
 import Litep2pVerif.Model.Wire.MultihashAccept
+import Litep2pVerif.Model.Wire.IdentifyProto
 /-! Line-protocol driver for the decoder models (C19). -/
 namespace Litep2pVerif.Driver.C19
 open Litep2pVerif Litep2pVerif.Wire Parse
@@ -291,8 +292,116 @@ def kadOut : Option KadOut → String
   | some (.getProviders k ps qs) => "getproviders key=" ++ keyOut k ++ " peers=" ++ peersOut ps ++
       " providers=" ++ peersOut qs
 
+/-! ### The identify protocol object (`idout`, `idin`, `idrt`) -/
+
+/-- `crate::verif::peer(i)`: identity multihash of an ed25519 key protobuf whose key bytes are `i`. -/
+def verifPeer (i : Nat) : List Nat :=
+  [0x00, 0x24, 0x08, 0x01, 0x12, 0x20] ++ List.replicate 24 0 ++
+    (List.range 8).map (fun k => (i / 256 ^ (7 - k)) % 256)
+
+/-- `a=x,b=e,c=n,d=p<hex>`: what the multiaddr parser said about each address. -/
+def addrInfoTable (s : String) : List (List Nat × AddrInfo) :=
+  (s.splitOn ",").filterMap fun item =>
+    match item.splitOn "=" with
+    | [h, v] =>
+      (input? h).bind fun b =>
+        if v = "x" then some (b, .invalid)
+        else if v = "e" then some (b, .empty)
+        else if v = "n" then some (b, .noP2p)
+        else if v.startsWith "p" then (hexBytes? (v.drop 1).toString).map fun id => (b, AddrInfo.p2p id)
+        else none
+    | _ => none
+
+def lookupInfo (t : List (List Nat × AddrInfo)) (a : List Nat) : AddrInfo :=
+  match t.find? (fun e => e.1 = a) with
+  | some e => e.2
+  | none => .invalid
+
+/-- Split the tokens of a line at the `#…` annotations: plain tokens and `(#name, value)` pairs. -/
+def splitNotes (ts : List String) : List String × List (String × String) :=
+  let (plain, notes, pending) :=
+    ts.foldl (fun (acc : List String × List (String × String) × Option String) t =>
+      let (plain, notes, pending) := acc
+      if t.startsWith "#" then
+        (plain, (match pending with | some k => notes ++ [(k, "")] | none => notes), some t)
+      else match pending with
+        | some k => (plain, notes ++ [(k, t)], none)
+        | none => (plain ++ [t], notes, none)) ([], [], none)
+  (plain, match pending with | some k => notes ++ [(k, "")] | none => notes)
+
+def note (notes : List (String × String)) (k : String) : String :=
+  match notes.find? (fun e => e.1 = k) with
+  | some e => e.2
+  | none => ""
+
+def outStep? (s : String) : Option OutStep :=
+  if s = "c" then some .close else if s = "r" then some .reset
+  else match s.splitOn ":" with
+    | ["w", h] => (input? h).map .write
+    | ["t", n] => n.toNat?.map .wait
+    | _ => none
+
+def inStep? (s : String) : Option InStep :=
+  match s.splitOn ":" with
+  | ["t", n] => n.toNat?.map .wait
+  | ["rd", n] => n.toNat?.map .read
+  | _ => none
+
+def showEvent (remote : List Nat) (r : OutboundResult) : String :=
+  match r with
+  | .noevent => "noevent"
+  | .panic m => "panic " ++ m
+  | .event e =>
+    "event peer=" ++ (if e.peer = remote then "remote" else bytesHex e.peer) ++ " pv=" ++ optHex e.protocolVersion ++
+      " av=" ++ optHex e.userAgent ++ " pr=[" ++ joinWith ";" (e.protocols.map hexd) ++ "] oa=" ++ hexd e.observed ++
+      " la=[" ++ joinWith ";" (e.listen.map hexd) ++ "]"
+
+def argOr (k : String) (ts : List String) (d : String) : String := (arg? k ts).getD d
+
+/-- The local node of `idin`/`idrt` from `key=value` tokens; `localId` from the `#local`/`#remote` note. -/
+def idLocal? (ts : List String) (localId : List Nat) : Option IdLocal := do
+  let pv ← input? (argOr "pv" ts "-")
+  let agent ← optBytes? (argOr "agent" ts "none")
+  let protos ← listBytes? (argOr "protos" ts "*")
+  let listen ← listBytes? (argOr "listen" ts "*")
+  let public_ ← listBytes? (argOr "public" ts "*")
+  pure { localId := localId, pv := pv, agent := agent, protocols := protos, listen := listen, public_ := public_ }
+
+def stepsOf (ts : List String) : List String := ts.filter fun t => !(t.contains '=')
+
+def idOut (ts : List String) (notes : List (String × String)) : String :=
+  match (arg? "peer" ts).bind String.toNat?, hexBytes? (note notes "#local"), (stepsOf ts).mapM outStep? with
+  | some p, some localId, some steps =>
+    let remote := verifPeer p
+    showEvent remote (identifyOutbound (lookupInfo (addrInfoTable (note notes "#addrs"))) remote localId steps)
+  | _, _, _ => "bad-op"
+
+def observedOf (ts : List String) : Option (Option (List Nat)) :=
+  if argOr "conn" ts "1" = "1" then (input? (argOr "ep" ts "-")).map some else some none
+
+def idIn (ts : List String) (notes : List (String × String)) : String :=
+  match hexBytes? (note notes "#local"), (argOr "cap" ts "1048576").toNat?, (stepsOf ts).mapM inStep?, observedOf ts with
+  | some localId, some cap, some steps, some obs =>
+    match idLocal? ts localId with
+    | some cfg => "sent " ++ hexd (identifyInbound cfg obs cap steps)
+    | none => "bad-op"
+  | _, _, _, _ => "bad-op"
+
+def idRt (ts : List String) (notes : List (String × String)) : String :=
+  match hexBytes? (note notes "#remote"), hexBytes? (note notes "#local"), (argOr "split" ts "0").toNat?, observedOf ts with
+  | some aId, some bId, some split, some obs =>
+    match idLocal? ts aId with
+    | some cfg =>
+      "sent " ++ hexd (identifyInbound cfg obs (2 ^ 20) []) ++ " ==> " ++
+        showEvent aId (identifyRoundtrip (lookupInfo (addrInfoTable (note notes "#addrs"))) cfg bId obs split)
+    | none => "bad-op"
+  | _, _, _, _ => "bad-op"
+
 def step (st : State) (line : String) : State × String :=
   match tokens line with
+  | "idout" :: rest => let (ts, notes) := splitNotes rest; (st, idOut ts notes)
+  | "idin" :: rest => let (ts, notes) := splitNotes rest; (st, idIn ts notes)
+  | "idrt" :: rest => let (ts, notes) := splitNotes rest; (st, idRt ts notes)
   | ["pb", schema, h] =>
     match input? h with
     | none => (st, "bad-op")
